@@ -420,6 +420,10 @@ pub fn gen_c09(tier: &str, seed: u64) -> Vec<Vec<String>> {
     // rotations both parts hold at once): the start time of every file is the one of ITS first record
     v.extend(gen_with(Opts { prop: "C01", size: true, age: true, force_rot: false, restarts: 1, cleanup: false, faults: false, ext: false, modes: false, max_ops: 40, namings: ALL, foreign: false, exist: false, bg: 0 }, tier, seed ^ 0xC09B, 200, 3000)
         .into_iter().map(|mut c| { c[0] = c[0].replacen("C01 ", "C09 x", 1); c }));
+    // forced rotations between the records (LoggerHandle::trigger_rotation): the file they start
+    // was started at THEIR time, also when several period boundaries have passed without a write
+    v.extend(gen_with(Opts { prop: "C09", size: false, age: true, force_rot: true, restarts: 0, cleanup: false, faults: false, ext: false, modes: false, max_ops: 30, namings: ALL, foreign: false, exist: false, bg: 0 }, tier, seed ^ 0xC09F, 200, 3000)
+        .into_iter().map(|mut c| { c[0] = c[0].replacen("C09 ", "C09 f", 1); c }));
     v.extend(gen_c09_realclock(tier, seed));
     v
 }
@@ -789,7 +793,7 @@ fn gen_c18_via_logger(tier: &str, seed: u64) -> Vec<Vec<String>> {
         let naming = *r.pick(&NAMINGS);
         let (spec, has_suffix) = gen_spec(&mut r, naming);
         c.push(spec);
-        c.push(if r.chance(1, 2) { "VIA filewriter".to_string() } else { "VIA logger".to_string() });
+        c.push(r.pick_s(&["VIA filewriter", "VIA logger", "VIA logger", "VIA addwriter", "VIA addwriter-failing", "VIA addwriter-failing"]).to_string());
         let n: u64 = *r.pick(&[5, 40, 300]);
         let rot = if r.chance(1, 2) { None } else { Some(format!("{n};_;{naming};never")) };
         let cap: Option<u64> = if r.chance(1, 3) { Some(*r.pick(&[16u64, 100, 8192])) } else { None };
